@@ -1,5 +1,5 @@
 (* Witnesses for the known findings of C31 (known_findings/C31.json). *)
-Require Import PonyV.Base.PyBase PonyV.Model.C31Bag PonyV.Proofs.C31Bag PonyV.Model.C31Pickle.
+Require Import PonyV.Base.PyBase PonyV.Model.C31Bag PonyV.Proofs.C31Bag.
 
 (* bag-given-object-without-collections: objects 0 (a C) and 1 (its B) are both given, C first: processing 0 stores 1 as a related
    object (no collections); 1 is then skipped because it already has an entry *)
@@ -12,10 +12,3 @@ Print Assumptions C31_bag_given_full_refuted.
 Theorem C31_bag_order_dependent : bag_to_dict rel01 [1%nat; 0%nat] 1%nat = Some Full /\ bag_to_dict rel01 [1%nat; 0%nat] 0%nat = Some Partial.
 Proof. split; vm_compute; reflexivity. Qed.
 Print Assumptions C31_bag_order_dependent.
-
-
-(* pickle-many-to-many-set-unpickles-empty: unpickle_setwrapper ignores the pickled items; a many-to-many collection with items
-   1 and 2 comes back empty in a session that had not loaded it (and is marked fully loaded there) *)
-Theorem C31_pickle_set_refuted : unpickle_set ManyToMany [] [1%nat; 2%nat] (fun _ => true) = [].
-Proof. reflexivity. Qed.
-Print Assumptions C31_pickle_set_refuted.
